@@ -16,7 +16,7 @@ LEVEL_TEXT = ("Static structural proof of necessary conditions: (R13.1) HedSchem
               "storing it; (R13.3) the duplicate-library refusal runs before any schema is loaded, the clashing-name "
               "refusal follows every merge, the duplicate-prefix refusal dominates the group table. Equivalence of "
               "prefixed and unprefixed judgement and 'standard is contained in partnered library' are NOT decided.")
-LEVEL_EXTRA = 'Added after the seeded evaluation: (R13.4) namespace prefixes removed by length, the per-entry prefix established afresh in each iteration; (R13.5) a value stored in a per-object cache of the schema classes depends only on arguments its key depends on. (R13.6) the memoised standard schema is deep-copied before a library is merged into it. (R13.7) the capitalisation check splits the tag text without its namespace; the duplicate-library refusal is keyed by the library name. (R13.8) the prefix table is consulted with the prefix exactly as written. (R13.9) the prefix taken from the annotation is returned as written; (R13.10) tag entries are finalised with the namespace-free lookup.'
+LEVEL_EXTRA = 'Added after the seeded evaluation: (R13.4) namespace prefixes removed by length, the per-entry prefix established afresh in each iteration; (R13.5) a value stored in a per-object cache of the schema classes depends only on arguments its key depends on. (R13.6) the memoised standard schema is deep-copied before a library is merged into it. (R13.7) the capitalisation check splits the tag text without its namespace; the duplicate-library refusal is keyed by the library name. (R13.8) the prefix table is consulted with the prefix exactly as written. (R13.9) the prefix taken from the annotation is returned as written; (R13.10) tag entries are finalised with the namespace-free lookup. (R13.11) a parameter is handed on to every repository callee that takes a parameter of the same name (11 frozen exceptions package-wide).'
 
 SCHEMA_RECEIVERS = {"hed_schema", "_hed_schema", "_schema", "schema"}
 USER_PACKAGES = ("hed.validator", "hed.models", "hed.errors")
@@ -385,3 +385,8 @@ def run(ctx):
                           "none is passed: every entry of a schema (re)finalised under a prefix loses its parent / takes-value child",
                           desc="%s uses the namespace-free lookup" % m.short)
     ctx.floor("R13.10", "schema lookups while finalising tag entries", n1310, 2)
+
+    # ---------------- R13.11: parameters are handed on to same-named parameters of repository callees
+    from sa.forward import check_forwarding
+    nfw = check_forwarding(ctx, "R13.11", [f for f in prog.functions.values() if f.module.name.startswith(('hed.schema.hed_schema_io', 'hed.schema.hed_schema_group', 'hed.schema.hed_schema'))], 'e.g. the namespace, the schema to merge into')
+    ctx.floor("R13.11", "same-named parameter sites", nfw, 1)
